@@ -334,7 +334,26 @@ func JudgeC03(c *Case, r *Result) string {
 			}
 			continue
 		}
-		if ex != e.Attempts {
+		if s.Redirect == 7 {
+			// stdout goes to /dev/full: whether an attempt fails is decided by when
+			// the buffered output hits the device, not by the script alone. The
+			// retry clause is judged on the attempts' own results: re-executed
+			// until an attempt succeeds or `limit` extra attempts have been used.
+			lim := s.RetryLimit
+			if lim < 0 {
+				lim = 0
+			}
+			lastErr := ""
+			if st != nil {
+				lastErr = st.ExitErr[ex]
+			}
+			if ex > lim+1 {
+				return fmt.Sprintf("step %q (stdout: /dev/full) executed %d time(s) with retryPolicy.limit %d", s.Name, ex, lim)
+			}
+			if ex >= 1 && lastErr != "" && ex < lim+1 {
+				return fmt.Sprintf("step %q (stdout: /dev/full): attempt %d failed (%s) and %d of %d extra attempts were left, but the step was not executed again", s.Name, ex, lastErr, lim+1-ex, lim)
+			}
+		} else if ex != e.Attempts {
 			return fmt.Sprintf("step %q executed %d time(s), expected exactly %d (failFirst=%d retryLimit=%d)", s.Name, ex, e.Attempts, s.FailFirst, s.RetryLimit)
 		}
 		// attempts of one step never overlap; nothing after a success
